@@ -48,7 +48,7 @@ CFG = {
         "1-2 profiles, items with tags, a stored key -> askar_store_copy to a new file with raw / kdf:argon2i:int / none, recreate 0/1; dump of "
         "source and copy through the C API against the Rust twin and against each other; the copy is independent; opens with its key only; copy "
         "onto the existing target with recreate 1 / 0+same key / 0+other key; NULL target, bad method, no callback, bad / closed handle, malformed "
-        "raw key, unsupported scheme), 8 remove cases (askar_store_remove of an existing / missing / still-open store, in-memory URI, NULL, "
+        "raw key, unsupported scheme), 8 remove cases (askar_store_remove of an existing / missing / still-open store - after a removal under an open handle the handle is only closed: what its pool does next is not determined, see assumptions -, in-memory URI, NULL, "
         "not UTF-8, unsupported scheme, a directory -> Backend; provision onto an existing file with recreate=0 and the same / another key / "
         "another method; provision error arms: malformed and missing raw key, missing password, bad method, bad URI parameter, missing "
         "directory), 4 migration cases (the shipped Indy fixture askar-storage/tests/indy_wallet_sqlite.db through askar_migrate_indy_sdk: valid, "
@@ -81,6 +81,12 @@ CFG = {
         "model is told the Rust API's verdict on the same arguments (model_input tw[i] = ok / ErrorKind) and predicts the C return code from "
         "its own argument checks (order as in the source) composed with that verdict; AEAD parameters, padding and EncryptedBuffer layout it "
         "computes itself; whether the wallet key opens the Indy fixture is a fact of the fixture (taken from the twin)",
+        "a store removed while a handle on it is open: the file is unlinked; an idle pooled connection keeps working on the unlinked file, a NEW "
+        "pooled connection (opened whenever the previous one is not yet back in the pool) re-creates an empty file at the path and fails with "
+        "Backend - which of the two happens is scheduling, so no session is started on such a handle (it is closed, which must succeed)",
+        "set-up transients are retried on the side they hit (up to 6 times): 'database is locked' while a pool's first connections put a fresh "
+        "file into WAL mode (provision2 / store_copy / store_open / migrate incl. its final re-open, Busy set-up), a Backend error of "
+        "session_start on one side only; a difference that persists is reported with the error text; callbacks are waited for 120 s",
         "the shipped Indy fixture holds no items (an empty wallet): record-level migration is C18's",
         "askar_buffer_free: only NULL / empty / real buffers are freed once (double free is outside the header's contract); that the freed "
         "block is wiped cannot be observed here (C20's instrumented allocator)",
